@@ -12,15 +12,18 @@ func TestCheck(t *testing.T) {
 			"against the real limiter (NewUpstreamLimiter + Sync + GetOrDefault(name).TryAcquire per request), no-op syncs (identical spec / other schema changed / Strategy field of the same schema changed) every 0.2-2 ms, " +
 			"real (qps,burst) changes in some runs (they split the run into stretches; events straddling one are dropped). Every TryAcquire is logged as (t_call, t_return, result) on one monotonic clock. " +
 			"Upper bound: every window [t_call(i), max t_return(<=j)] over admissions i<=j of a stretch (one pass, running minimum). Lower bound: drain to a refusal, idle, immediate burst; idle time measured from the last return to the first call. " +
+			"Directed scenarios (both tiers): low-qps schema (1,2,5 qps) driven to an observed refusal -> no-op sync (must not refill) -> real change to (500|2000 qps) -> idle 20|50 ms -> immediate burst by 1|4 callers must admit min(burst', floor(qps'*t)), t counted from the later of Sync's return / last attempt's return. " +
 			"A sample runs through the real handler chain (HTTP, stub upstream): same upper bound on (request sent, response received) intervals and every non-forwarded request must be a 429 Status. " +
 			"Non-trivial = the run saw refusals and more than burst admissions; distinct = hash of the case and its counts.")
 		r.Assume("the harness clock (time.Since, monotonic) and the bucket's clock (time.Now, monotonic reading) advance at the same rate")
 		r.Assume("slack 1e-6 tokens covers float64 rounding inside the bucket; qps values are integers < 2^24 so the float32 conversion in NewTokenBucketRateLimiter is exact")
+		reconfigScenarios(r)
 		limiterRuns(r)
 		endToEnd(r)
 		r.Require(r.Counter("admissions_judged") >= 5000 && r.Counter("refusals_in_stretches") >= 5000, "too few token-bucket events")
 		r.Require(r.Counter("noop_syncs") >= 500, "too few no-op syncs interleaved")
 		r.Require(r.Counter("lower_bound_checks_after_observed_refusal_requiring>=1") >= 50, "too few non-trivial lower-bound checks")
+		r.Require(r.Counter("reconf_scenarios_requiring>=1") >= 20, "too few reconfiguration-after-refusal scenarios completed")
 		r.Require(r.Counter("e2e_refusals_429") >= 20 && r.Counter("e2e_forwarded") >= 10, "too few end-to-end events")
 	})
 }
